@@ -87,7 +87,11 @@ def _print_Piecewise(
         else:
             return printer._print(cond)
 
-    simplified = sympy.simplify(expr)
+    try:
+        simplified = sympy.simplify(expr)
+    except TypeError:
+        # sympy may fail to simplify ("cannot determine truth value of Relational")
+        simplified = expr
     if (
         isinstance(simplified, sympy.Piecewise)
         and len(simplified.args) > 0
